@@ -373,7 +373,14 @@ def run(tier, seed, rep):
         rep.add_many(res)
         per_type[info[3]] = per_type.get(info[3], 0) + 1
         nfull += bool(info[4])
-    cov = dict(api_values_compared=napi, api_configurations=len(ajobs),
+    try:
+        from ..refconform import run as refrun
+        rn, rok, rmism, _ = refrun()
+        refconf = dict(pairs_asserted_by_the_repository_tests_on_recorded_responses=rn, reference_decoder_agrees=rok,
+                       disagreements=rmism[:5])
+    except Exception as e:  # noqa: BLE001
+        refconf = dict(error=f'{type(e).__name__}: {e}')
+    cov = dict(reference_decoder_conformance=refconf, api_values_compared=napi, api_configurations=len(ajobs),
                evaluations=total + nmap + ntab + napi, uniform_table_evaluations=ntab, distinct_nontrivial=nontriv, register_map_entries_compared=nmap,
                rule='for every sensor with own registers of every table of ET, DT, ES: own-register contents '
                     '(all 65536 values of 2-byte fields and of each half of 4-byte fields, all 256 values of 1-byte fields '
